@@ -514,7 +514,10 @@ uint8_t* DNS::update_dname(uint8_t* ptr, uint32_t threshold, uint32_t offset) {
             uint16_t index;
             memcpy(&index, ptr, sizeof(uint16_t));
             index = Endian::be_to_host(index) & 0x3fff;
-            if (index > threshold) {
+            // The pointer is an offset from the start of the message while the 
+            // threshold is a position in the records data, which starts right 
+            // after the header
+            if (index >= threshold + sizeof(dns_header)) {
                 index = Endian::host_to_be<uint16_t>((index + offset) | 0xc000);
                 memcpy(ptr, &index, sizeof(uint16_t));
             }
